@@ -48,9 +48,16 @@ namespace BitSerializer::Detail
 		}
 		else
 		{
-			// Round toward negative infinity, the nanoseconds part must be in the range 0..999999999
-			outTimestamp.Seconds = std::chrono::floor<std::chrono::seconds>(epochTime).count();
-			const auto leftTime = epochTime - std::chrono::duration_cast<TDuration>(std::chrono::seconds(outTimestamp.Seconds));
+			// Round toward negative infinity, the nanoseconds part must be in the range 0..999999999. Truncated seconds are
+			// converted back first (floored seconds of the very first second of the range are not representable in `TDuration`).
+			auto seconds = std::chrono::duration_cast<std::chrono::seconds>(epochTime);
+			auto leftTime = epochTime - std::chrono::duration_cast<TDuration>(seconds);
+			if (leftTime.count() < 0)
+			{
+				seconds -= std::chrono::seconds(1);
+				leftTime += std::chrono::duration_cast<TDuration>(std::chrono::seconds(1));
+			}
+			outTimestamp.Seconds = seconds.count();
 			outTimestamp.Nanoseconds = static_cast<int32_t>(std::chrono::duration_cast<std::chrono::nanoseconds>(leftTime).count());
 		}
 	}
@@ -98,9 +105,17 @@ namespace BitSerializer::Detail
 		}
 		else
 		{
-			// Round toward negative infinity, the nanoseconds part must be in the range 0..999999999
-			outTimestamp.Seconds = std::chrono::floor<std::chrono::seconds>(duration).count();
-			const auto leftTime = duration - std::chrono::duration_cast<std::chrono::duration<TRep, TPeriod>>(std::chrono::seconds(outTimestamp.Seconds));
+			// Round toward negative infinity, the nanoseconds part must be in the range 0..999999999. Truncated seconds are
+			// converted back first (floored seconds of the very first second of the range are not representable in the source type).
+			using TDuration = std::chrono::duration<TRep, TPeriod>;
+			auto seconds = std::chrono::duration_cast<std::chrono::seconds>(duration);
+			auto leftTime = duration - std::chrono::duration_cast<TDuration>(seconds);
+			if (leftTime.count() < 0)
+			{
+				seconds -= std::chrono::seconds(1);
+				leftTime += std::chrono::duration_cast<TDuration>(std::chrono::seconds(1));
+			}
+			outTimestamp.Seconds = seconds.count();
 			outTimestamp.Nanoseconds = static_cast<int32_t>(std::chrono::duration_cast<std::chrono::nanoseconds>(leftTime).count());
 		}
 	}
